@@ -316,7 +316,13 @@ fn run_sm(ctx: &RunCtx) -> RunOut {
     // a second configured app with its own decision (mixed outcomes: event reports then name a strict subset of the apps)
     let second_app: Option<OmahaResponse> = [None, Some(OmahaResponse::NoUpdate), Some(OmahaResponse::Update)][choose("second_app", 3)];
     let b_first = second_app.is_some() && choose("second_app_first", 2) == 1;
+    // the first configuration asserts the client's cohort; the reconfiguration before the second check
+    // drops that assertion (by then the mock has moved the client to the cohort it hands out)
+    let cohort_assertion = reconfig > 0 && choose("initial_cohort_assertion", 2) == 1;
     let mut s = Setup::new(Mode::Start);
+    if cohort_assertion {
+        s.apps[0].cohort = Cohort::new("co-1");
+    }
     if second_app.is_some() {
         s.apps.push(app("app-B", [5, 6, 7, 8]));
         if b_first {
@@ -334,7 +340,7 @@ fn run_sm(ctx: &RunCtx) -> RunOut {
     let mut map = HashMap::new();
     map.insert(
         "app-A".to_string(),
-        ResponseAndMetadata { response: kind, version: Some("1.2.3.4".into()), ..Default::default() },
+        ResponseAndMetadata { response: kind, version: Some("1.2.3.4".into()), cohort_assertion: if cohort_assertion { Some("co-1".into()) } else { None }, ..Default::default() },
     );
     if let Some(k) = second_app {
         map.insert("app-B".to_string(), ResponseAndMetadata { response: k, version: Some("5.6.7.8".into()), ..Default::default() });
@@ -450,7 +456,7 @@ fn parts(tier: Tier) -> Vec<PartDef> {
         PartDef::new(
             "state-machine-vs-mock",
             Cfg::new("C17/state-machine-vs-mock"),
-            json!({"response_kinds": 5, "forced_etag": 2, "cup": 2, "urls": URLS.len(), "second_app": ["none", "NoUpdate", "Update"], "second_app_position": 2, "reconfigure_between_checks": "before check 2 and before check 3: none or to each of 5 kinds (through /set_responses_by_appid)", "checks_per_run": 3, "exploration": "full product"}),
+            json!({"response_kinds": 5, "forced_etag": 2, "cup": 2, "urls": URLS.len(), "initial_cohort_assertion_dropped_by_the_reconfiguration": [false, true], "second_app": ["none", "NoUpdate", "Update"], "second_app_position": 2, "reconfigure_between_checks": "before check 2 and before check 3: none or to each of 5 kinds (through /set_responses_by_appid)", "checks_per_run": 3, "exploration": "full product"}),
             run_sm,
         ),
     ]
